@@ -56,6 +56,8 @@ func times(i int) time.Time {
 		return refT.Add(-time.Hour + 123456789*time.Nanosecond)
 	case 3:
 		return refT.Add(30*time.Minute + 999999999*time.Nanosecond).In(zoneX)
+	case 4:
+		return time.Unix(-86400*400, 0).UTC() // a whole second before the Unix epoch
 	}
 	return time.Time{}
 }
@@ -152,7 +154,7 @@ func pinOptFields[T any](po func(*T) *api.PinOptions, withMode, withUpdate bool)
 		{"Name", 3, func(v *T, i int) { po(v).Name = strChoice(i) }},
 		{"ShardSize", 3, func(v *T, i int) { po(v).ShardSize = []uint64{0, 100 * 1024 * 1024, math.MaxUint64}[i] }},
 		{"UserAllocations", 4, func(v *T, i int) { po(v).UserAllocations = peersChoice(i) }},
-		{"ExpireAt", 4, func(v *T, i int) { po(v).ExpireAt = times(i) }},
+		{"ExpireAt", 5, func(v *T, i int) { po(v).ExpireAt = times(i) }},
 		{"Metadata", 5, func(v *T, i int) { po(v).Metadata = metaChoice(i) }},
 		{"Origins", 4, func(v *T, i int) { po(v).Origins = originsChoice(i) }},
 	}
